@@ -1,4 +1,6 @@
 pub mod c06;
+pub mod c15;
+pub mod c16unit;
 pub mod c17;
 pub mod crashprops;
 pub mod seqprops;
@@ -7,9 +9,39 @@ use crate::env::Tier;
 
 pub fn dispatch(id: &str, tier: Tier, seed: u64, replay: Option<&str>) -> i32 {
     match id {
-        "C01" | "C05" | "C10" | "C11" | "C12" | "C13" | "C14" | "C16" => seqprops::run(id, tier, seed, replay),
+        "C01" | "C05" | "C10" | "C11" | "C12" | "C13" | "C14" => seqprops::run(id, tier, seed, replay),
+        "C16" => {
+            if let Some(path) = replay {
+                let text = std::fs::read_to_string(path).unwrap_or_default();
+                if text.contains("\"cache_unit\"") {
+                    return c16unit::replay(path);
+                }
+                return seqprops::run(id, tier, seed, replay);
+            }
+            let code = seqprops::run(id, tier, seed, None);
+            let (ucode, summary) = c16unit::campaign(tier, seed);
+            // fold the unit campaign into the evidence written by the differential campaign
+            let path = crate::env::verif_root().join("evidence/C16.json");
+            if let Ok(text) = std::fs::read_to_string(&path) {
+                if let Ok(mut doc) = serde_json::from_str::<serde_json::Value>(&text) {
+                    let add = summary["sequences"].as_u64().unwrap_or(0);
+                    let ntadd = summary["distinct_nontrivial"].as_u64().unwrap_or(0);
+                    if let Some(c) = doc.get_mut("coverage") {
+                        c["evaluations"] = serde_json::json!(c["evaluations"].as_u64().unwrap_or(0) + add);
+                        c["distinct_nontrivial"] = serde_json::json!(c["distinct_nontrivial"].as_u64().unwrap_or(0) + ntadd);
+                        c["cache_unit"] = summary;
+                    }
+                    if ucode == 1 {
+                        doc["violations"] = serde_json::json!(doc["violations"].as_u64().unwrap_or(0) + 1);
+                    }
+                    let _ = std::fs::write(&path, serde_json::to_vec_pretty(&doc).unwrap());
+                }
+            }
+            code.max(ucode)
+        }
         "C06" => c06::run(tier, seed, replay),
         "C17" => c17::run(tier, seed, replay),
+        "C15" => c15::run(tier, seed, replay),
         "C02" => crashprops::run("C02", tier, seed, replay),
         "C03" => crashprops::run("C03", tier, seed, replay),
         "C04" => crashprops::run("C04", tier, seed, replay),
